@@ -27,6 +27,7 @@ LEVEL_TEXT = ('Bounded-exhaustive: for every supported constructor of the bundle
 LEVEL_NOTE = ('trusted: mc/ref/tl.py (own schema parser, ids pinned against TON\'s generated headers for dht.ping, tonNode.blockIdExt, adnl.message.query, '
               'liteServer.getMasterchainInfo, liteServer.query; TL string framing pinned on the classic 253/254 vectors)')
 TECHNIQUE = 'deviation-bounded exhaustive enumeration of TL values for every bundled constructor against an independent TL reference codec'
+RULE += ' Sixth session: registry use histories - for every constructor A with flag-conditional fields a fresh registry object handles the values of A first (<= 1 deviation: every flag combination), then those of every other such constructor B (all ordered pairs with A first in the life of the registry); bytes fields holding a SEQUENCE of boxed objects (parsed into a list, serialised again).'
 RULE += ' Nested objects in bytes fields include a constructor without fields (4 bytes: the id alone) and one nested a level deeper.'
 ASSUMPTIONS = ['value conventions of the library API are taken as given: objects are dicts with @type, int128/int256 are hex text of the wire bytes, Bool is a Python bool, '
                'a bytes field may hold a nested object',
@@ -41,7 +42,7 @@ def BOUNDS(tier):
 
 
 def REQUIRED_COVER(tier):
-    return {'registry', 'listdir-orders', 'ctor:boxed-alt', 'len:253', 'len:254', 'len:65536', 'flags:all-combos', 'vector:0', 'vector:3', 'nested-object', 'nested-sequence', 'blockid',
+    return {'registry', 'listdir-orders', 'ctor:boxed-alt', 'len:253', 'len:254', 'len:65536', 'flags:all-combos', 'vector:0', 'vector:3', 'nested-object', 'nested-sequence', 'registry-history', 'blockid',
             'string:utf8', 'vector:int', 'vector:int256', 'vector:bytes'}
 
 
@@ -560,6 +561,35 @@ def shard_values(rec, part, parts):
     rec.notes['out_of_scope'] = len(S.decls) - len(decls)
 
 
+# ------------------------------------------------------------------------------------------ registry use histories (sixth session)
+def flag_decls():
+    S = ref_schema()
+    return [d for d in in_scope_decls() if any(t[0] == 'cond' for _, t in d.fields)]
+
+
+def shard_pair_histories(rec, part, parts):
+    """ONE registry object used for two constructors one after the other: for every constructor A with flag-conditional fields a FRESH
+    registry serialises and parses the values of A first (every flag combination the value explorer reaches with <= 1 deviation), then
+    those of every other such constructor B - whatever was learnt from A must not change what B means.  Covers every ordered pair (A, B)
+    with A first in the life of the registry."""
+    from pytoniq_core.tl.generator import TlGenerator
+    S = ref_schema()
+    decls = flag_decls()
+    rec.notes['flag_constructors'] = len(decls)
+    for i, a in enumerate(decls):
+        if i % parts != part:
+            continue
+        L = TlGenerator.with_default_schemas().generate()       # fresh object: A is the first thing it ever sees
+        n = explore_decl(rec, L, S, a, 1, key_prefix=f'after-nothing:')
+        for b in decls:
+            if b is a:
+                continue
+            rec.state(('pair', a.name, b.name))
+            explore_decl(rec, L, S, b, 1, key_prefix=f'after[{a.name}]:')
+        rec.covered('registry-history')
+    rec.sample({'registry_history': 'fresh TlGenerator: liteServer.getOutMsgQueueSizes (all flag combinations), then every other constructor with optional fields'})
+
+
 # ------------------------------------------------------------------------------------------ registry under every listdir order
 def norm_type(s):
     return ' '.join(s.replace('(', ' ( ').replace(')', ' ) ').split())
@@ -726,4 +756,7 @@ def shards(tier, seed):
     parts = 30 if tier == 'quick' else 96
     for p in range(parts):
         out.append({'fn': 'shard_values', 'args': {'part': p, 'parts': parts}, 'prio': 1})
+    hp = 16 if tier == 'quick' else 48
+    for p in range(hp):
+        out.append({'fn': 'shard_pair_histories', 'args': {'part': p, 'parts': hp}, 'prio': 2})
     return out
